@@ -31,6 +31,11 @@ type ordEval struct {
 	bad  string
 	// index mode: operands are <expr>[recv] and <expr>[par] (sort.Interface.Less)
 	index bool
+	// prog, when set, lets method-call comparisons (a.NewerThan(b)) be inlined
+	prog *Prog
+	// boolErr: the function returns (bool, error); the value is the first result of a
+	// return whose second result is nil
+	boolErr bool
 }
 
 func (e *ordEval) fieldOf(x ast.Expr) (string, int, bool) {
@@ -112,6 +117,32 @@ func (e *ordEval) expr(x ast.Expr, c ordCase) bool {
 			}
 		}
 	}
+	// X.M(Y) where M's body is a single "return recv OP param": the same as X OP Y
+	if call, ok := ast.Unparen(x).(*ast.CallExpr); ok && len(call.Args) == 1 && e.prog != nil {
+		if sel, ok := ast.Unparen(call.Fun).(*ast.SelectorExpr); ok {
+			if f := CalleeFunc(e.fn, call); f != nil {
+				if callee, ok := e.prog.ByObj[f]; ok && callee.Decl != nil && callee.Body != nil && len(callee.Body.List) == 1 && callee.Decl.Recv != nil && len(callee.Decl.Recv.List[0].Names) == 1 {
+					if ret, ok := callee.Body.List[0].(*ast.ReturnStmt); ok && len(ret.Results) == 1 {
+						if be, ok := ast.Unparen(ret.Results[0]).(*ast.BinaryExpr); ok {
+							rv := callee.Pkg.TypesInfo.Defs[callee.Decl.Recv.List[0].Names[0]]
+							pv := paramObj(callee, 0)
+							a, b := objOf(callee, be.X), objOf(callee, be.Y)
+							var lx, ly ast.Expr
+							switch {
+							case a == rv && b == pv:
+								lx, ly = sel.X, call.Args[0]
+							case a == pv && b == rv:
+								lx, ly = call.Args[0], sel.X
+							}
+							if lx != nil {
+								return e.expr(&ast.BinaryExpr{X: lx, Op: be.Op, Y: ly}, c)
+							}
+						}
+					}
+				}
+			}
+		}
+	}
 	e.bad = "expression outside the comparison fragment: " + types.ExprString(x)
 	return false
 }
@@ -121,6 +152,9 @@ func (e *ordEval) stmts(list []ast.Stmt, c ordCase) (bool, bool) {
 	for _, s := range list {
 		switch v := s.(type) {
 		case *ast.ReturnStmt:
+			if e.boolErr && len(v.Results) == 2 && isNilIdent(e.fn, v.Results[1]) {
+				return e.expr(v.Results[0], c), true
+			}
 			if len(v.Results) != 1 {
 				e.bad = "return with several results"
 				return false, true
